@@ -224,6 +224,22 @@ Proof.
     + unfold ancestral_sibling in E. cbn in E. rewrite (parent_of_beyond _ _ Hge) in E. discriminate.
 Qed.
 
+(* a source without a parent (the root node of the HUGR) has no ancestor-sibling relation to anything and
+   lies inside no CFG: every wire from it is refused, whatever the target and the kind of its port *)
+Lemma parentless_no_relation pt src tgt : parent_of pt src = None -> ~ SiblingAncestor pt src tgt.
+Proof. intros H (a & sp & _ & Hs & _). congruence. Qed.
+Lemma parentless_not_inside pt cfg src : parent_of pt src = None -> ~ InsideCfg pt cfg src.
+Proof. intros H (p & Hp & _). congruence. Qed.
+Theorem parentless_source_raises pt src tgt k : ParentFirst pt -> parent_of pt src = None ->
+  wire_up_dfg pt src tgt k = Err NoSiblingAncestor.
+Proof. intros WF H. apply wire_no_relation_raises; auto using parentless_no_relation. Qed.
+Theorem parentless_source_in_block_raises pt root cfg src tgt k :
+  ParentFirst pt -> parent_of pt root = None -> parent_of pt src = None ->
+  wire_up_block pt root cfg src tgt k = Err NotInSameCfg.
+Proof.
+  intros WF Hr H. apply wire_outside_cfg_raises; auto using parentless_no_relation, parentless_not_inside.
+Qed.
+
 (* ------------------------------------------------------------------ functions, calls *)
 Theorem non_function_port_raises k : NotFunctionPort k ->
   exists e, fn_sig k = Err e /\ (k <> KInvalid -> e = ValueError).
@@ -585,4 +601,14 @@ Example ex_wires :
   wire_up_block ex_pt 0 6 13 11 KValue = Ok None /\             (* block to block inside the same CFG *)
   wire_up_block ex_pt 0 6 15 11 KValue = Err NotInSameCfg /\
   wire_up_dfg ex_pt 4 11 KFunction = Err ValueError.
+Proof. vm_compute. repeat split. Qed.
+(* the root node as the source (seeded round 2): refused from a deep target, from a block of a CFG, also
+   when the target's walk ends at the root itself; a container's own output wired into its body has the
+   relation as the code defines it (the container is its own sibling) and gets the order edge (3, 3) *)
+Example ex_root_source :
+  wire_up_dfg ex_pt 0 11 KValue = Err NoSiblingAncestor /\
+  wire_up_dfg ex_pt 0 1 KValue = Err NoSiblingAncestor /\
+  wire_up_block ex_pt 0 6 0 11 KValue = Err NotInSameCfg /\
+  wire_up_dfg ex_pt 3 11 KValue = Ok (Some (3, 3)) /\
+  sibling_ancestor_b ex_pt 0 11 = false /\ inside_cfg_b ex_pt 6 0 = false.
 Proof. vm_compute. repeat split. Qed.
